@@ -39,14 +39,17 @@ VARIABLES l,       \* position in the trace
 Trace == ndJsonDeserialize("trace.ndjson")
 tvars == <<l, ents, nseq, base, lo, rep, wr, busy, stalled, extra>>
 
+\* keys: the model keys plus whatever key a primary write has named (the many keys of a "long" batch)
+Keys == TKeys \cup {ents[i].k : i \in DOMAIN ents}
 None == [k \in TKeys |-> "NONE"]
 Ev(e) == l <= Len(Trace) /\ Trace[l].e = e /\ l' = l + 1
 SeqAt(n) == IF n = 0 THEN 0 ELSE ents[n].seq
 Norm(v) == IF v = "TOMB" THEN "NONE" ELSE v
+Was(b, k) == IF k \in DOMAIN b THEN b[k] ELSE "NONE"
 \* the state of a store that held b and then applied the first n entries
-Overlay(b, n) == [k \in TKeys |->
+Overlay(b, n) == [k \in Keys |->
                     LET is == {i \in 1..n : ents[i].k = k} IN
-                    IF is = {} THEN b[k] ELSE Norm(ents[CHOOSE i \in is : \A j \in is : j <= i].v)]
+                    IF is = {} THEN Was(b, k) ELSE Norm(ents[CHOOSE i \in is : \A j \in is : j <= i].v)]
 
 TInit == TLCSet(1, 0) /\ l = 1 /\ ents = <<>> /\ nseq = 1 /\ base = None /\ lo = 0 /\ rep = 0 /\ wr = 0 /\ busy = {} /\ stalled = 0 /\ extra = 0
 
@@ -70,7 +73,7 @@ TCwr == Ev("cwr") /\ Trace[l].refused /\ UNCHANGED <<ents, nseq, base, lo, rep, 
 TSample == /\ Ev("s") /\ Trace[l].x = 0
            /\ Trace[l].rep >= rep /\ rep' = Trace[l].rep
            /\ \E n \in lo..Len(ents) :
-                /\ \A k \in TKeys : Trace[l].st[k] = Overlay(base, n)[k]
+                /\ \A k \in Keys : Trace[l].st[k] = Overlay(base, n)[k]
                 /\ SeqAt(n) >= Trace[l].rep
                 /\ lo' = n
            /\ UNCHANGED <<ents, nseq, base, wr, stalled, extra, busy>>
@@ -79,7 +82,7 @@ TQuiesce == Ev("quiesce") /\ wr = 0 /\ UNCHANGED <<ents, nseq, base, lo, rep, wr
 \* each (a skipped entry that a later write covers, or an entry applied twice, is invisible in the state but not here)
 TConv == /\ Ev("conv") /\ lo = Len(ents)
          /\ Trace[l].rcount = Len(ents) + extra
-         /\ \A k \in TKeys : Trace[l].pst[k] = Overlay(None, Len(ents))[k]
+         /\ \A k \in Keys : Trace[l].pst[k] = Overlay(None, Len(ents))[k]
          /\ UNCHANGED <<ents, nseq, base, lo, rep, wr, stalled, extra, busy>>
 
 (* C15 *)
